@@ -334,6 +334,32 @@ func runC02One(args []string) int {
 				}
 			}
 			for _, p := range res.Problems {
+				if p.InjRun {
+					// oracle (the statement of C02_inject_lines_complete): InjectDiagnostics prints exactly the source lines that
+					// carry a diagnostic position (positions outside the file print nothing)
+					want := map[int]bool{}
+					for _, ls := range p.DiagLines {
+						for _, x := range ls {
+							if x >= 1 && x <= nSplit {
+								want[x] = true
+							}
+						}
+					}
+					got := map[int]bool{}
+					for _, x := range p.InjLines {
+						got[x] = true
+					}
+					same := len(want) == len(got)
+					for x := range want {
+						same = same && got[x]
+					}
+					switch {
+					case p.InjPanic && len(want) > 0:
+						addFail("in-process: InjectDiagnostics panicked on diagnostics that have positions", v.String(), !v.Strict, p)
+					case !p.InjPanic && !same:
+						addFail(fmt.Sprintf("in-process: InjectDiagnostics printed source lines %v but the diagnostics have positions on lines %v", p.InjLines, p.DiagLines), v.String(), !v.Strict, p)
+					}
+				}
 				if p.InjRun && len(injectCases) < 4 {
 					ds := make([]string, 0, len(p.DiagLines))
 					for _, ls := range p.DiagLines {
